@@ -2,24 +2,43 @@ import UPVerif.Core.Expr
 import UPVerif.Core.Walkers.FreeVars
 /-
 `Substituter` (unified_planning/model/walkers/substituter.py) on top of `IdentityDagWalker`
-(identitydag.py).
+(identitydag.py) and `DagWalker` (dag.py).
 
-* the walk is bottom-up, but `walk_replace_or_identity` looks the ORIGINAL node up in the map:
-  a key occurrence is replaced as a whole and nothing is substituted inside the inserted value;
-* a node that is not a key is rebuilt from its substituted children THROUGH THE MANAGER's
-  constructors (`And`/`Or`/`Plus`/`Times` collapse 0/1 arguments, `Not` collapses a double negation);
-* at a quantifier every pair whose KEY has a free variable bound there is dropped for the body
-  (`_push_with_children_to_stack`), then the quantifier node itself is looked up.
+What the Python does, function by function (line numbers of substituter.py after the C13 fix
+`notes/patches/C13-substituter-top-down.patch`):
 
-The type-compatibility check of `substitute()` (all pairs, before the walk) is modelled in
-`substituteChecked` with the compatibility test as a parameter (it needs `typeOf`, C15).
+* `DagWalker.walk/iter_walk/_process_stack` (dag.py:46-105): every node is first handed to
+  `_push_with_children_to_stack`, which either memoises a result directly or pushes the node and its
+  children; once the children are memoised `_compute_node_result` calls
+  `walk_replace_or_identity(node, args = results of the children, subs)`.  The memo is keyed by the
+  node only and is cleared after every walk (`invalidate_memoization=True`); within one walk `subs`
+  is constant, so the machine computes the pure recursion `subst` below (the machine itself —
+  stack, memo, failure — is property C14's model).
+* `_push_with_children_to_stack` (substituter.py:40-80):
+    1. (the fix) a node that IS a key is memoised as its value; its children are not visited;
+    2. a quantifier: the pairs whose KEY has a free variable bound here are dropped
+       (`keptUnder`), the body goes through a FRESH `Substituter.substitute(body, new_subs)` — which
+       returns the body untouched when `new_subs` is empty (substituter.py:115) and otherwise re-checks
+       the (already checked) pairs and walks — then `walk_replace_or_identity(quantifier, [res])`;
+    3. anything else: children first.
+* `walk_replace_or_identity` (substituter.py:128-141): look the ORIGINAL node up in `subs`; if absent
+  rebuild it from the new children through `IdentityDagWalker.walk_<op>`, i.e. through the
+  expression manager's constructors (`And`/`Or`/`Plus`/`Times` collapse 0/1 arguments, `Not`
+  collapses a double negation; quantifiers keep their variable tuple in order).
+* `substitute` (substituter.py:82-126): empty map → the expression itself; every pair is
+  type-checked BEFORE the walk, the first incompatible pair raises `UPTypeError`.
+
+Not modelled here: the type check of every rebuilt node done by `ExpressionManager.create_node`
+(a rebuilt node that is ill-typed makes the real walk raise; the check keeps its inputs to maps
+whose result is constructible, see harness/props/C13.py ASSUMPTIONS — typing is C15's model).
 -/
 namespace UPVerif.Expr
 
 /-- a Python dict FNode → FNode in insertion order; keys are unique, lookup = first match -/
 abbrev Subst := List (Expr × Expr)
 
-/-- `IdentityDagWalker.walk_*`: rebuild a node from new children through the manager -/
+/-- `IdentityDagWalker.walk_<op>(expression, args)` (identitydag.py:40-148): rebuild a node from
+    new children through the manager -/
 def rebuild (op : Op) (args : List Expr) : Expr :=
   match op, args with
   | .and, as => mkAnd as
@@ -29,28 +48,67 @@ def rebuild (op : Op) (args : List Expr) : Expr :=
   | .times, as => mkTimes as
   | op, as => .app op as
 
+/-- `IdentityDagWalker.super(self, expression, args)`: the identity handler of the node's kind.
+    Leaves are re-created from their payload (same hash-consed node); a quantifier is re-created
+    around the new body with `expression.variables()` in their original order. -/
+def identityNode : Expr → List Expr → Expr
+  | .leaf l, _ => .leaf l
+  | .app op _, args => rebuild op args
+  | .quant q vs _, [b] => .quant q vs b
+  | .quant q vs b, _ => .quant q vs b
+
+/-- `Substituter.walk_replace_or_identity(expression, args, subs)` (substituter.py:128-141) -/
+def walkReplaceOrIdentity (σ : Subst) (e : Expr) (args : List Expr) : Expr :=
+  match σ.lookup e with
+  | some v => v
+  | none => identityNode e args
+
+/-- does the key `k` mention (free) a variable bound by a quantifier over `vs`? -/
+def capturedBy (vs : List Var) (k : Expr) : Bool := (freeVars k).any (fun m => vs.contains m)
+
+/-- `_push_with_children_to_stack`, step 1 of the quantifier case (substituter.py:53-64): the pairs
+    that stay active in the body of a quantifier over `vs` -/
+def keptUnder (vs : List Var) (σ : Subst) : Subst :=
+  σ.filter (fun kv => (freeVars kv.1).all (fun m => !vs.contains m))
+
 mutual
-/-- `Substituter.walk` with `subs = σ` (no type check) -/
+/-- the variables bound by the quantifiers of an expression (used to state capture conditions) -/
+def boundVars : Expr → List Var
+  | .leaf _ => []
+  | .app _ args => boundVarsList args
+  | .quant _ vs b => vs ++ boundVars b
+def boundVarsList : List Expr → List Var
+  | [] => []
+  | e :: es => boundVars e ++ boundVarsList es
+end
+
+mutual
+/-- the result memoised for a node by one `Substituter.walk(expression, subs = σ)` -/
 def subst (σ : Subst) : Expr → Expr
   | .leaf l =>
     match σ.lookup (.leaf l) with
-    | some v => v
-    | none => .leaf l
+    | some v => v                                              -- push: node is a key
+    | none => walkReplaceOrIdentity σ (.leaf l) []
   | .app op args =>
     match σ.lookup (.app op args) with
-    | some v => v
-    | none => rebuild op (substList σ args)
+    | some v => v                                              -- push: node is a key
+    | none => walkReplaceOrIdentity σ (.app op args) (substList σ args)
   | .quant q vs body =>
-    let σ' := σ.filter (fun kv => (freeVars kv.1).all (fun m => !vs.contains m))
     match σ.lookup (.quant q vs body) with
-    | some v => v
-    | none => .quant q vs (subst σ' body)
+    | some v => v                                              -- push: node is a key
+    | none =>
+      let σ' := keptUnder vs σ
+      -- `sub.substitute(expression.arg(0), new_subs)` on a fresh Substituter
+      let res := if σ'.isEmpty then body else subst σ' body
+      walkReplaceOrIdentity σ (.quant q vs body) [res]
 def substList (σ : Subst) : List Expr → List Expr
   | [] => []
   | e :: es => subst σ e :: substList σ es
 end
 
-/-- `Substituter.substitute`: empty map → identity; any incompatible pair → error, else walk -/
+/-- `Substituter.substitute(expression, substitutions)` (substituter.py:82-126) with the verdict of
+    `new_k.type.is_compatible(new_v.type)` as a parameter: empty map → the expression itself;
+    any incompatible pair → `UPTypeError` (`none`) before the walk starts; otherwise the walk. -/
 def substituteChecked (compat : Expr → Expr → Bool) (σ : Subst) (e : Expr) : Option Expr :=
   if σ.isEmpty then some e
   else if σ.all (fun kv => compat kv.1 kv.2) then some (subst σ e)
